@@ -630,7 +630,7 @@ func c15Concurrent(c *mon.Ctx) {
 func init() {
 	register(&mon.CheckSpec{
 		ID: "C15", Level: "exploration",
-		Rule: "cases = (first, on the cold process) for 21 file-related syscalls an event with four PATH records coalesced before and after an event of the same syscall with one or two PATH records: equal results; then a cross-process order probe: a fixed list of 39 events (one per candidate of every record type with several conditional normalisations - SELinux and AppArmor AVC records, alone and inside SYSCALL groups -, file syscalls with 4/1/2 PATH records, user-space records of seven types) is coalesced in forward order in this process and in reverse, rotated-by-one, rotated-by-half and forward order by four FRESH processes (`vcheck probe c15-order`): every event's outcome must be the same whatever the process saw before it; then seeded operation histories over a pool of 6-12 message groups (generated SYSCALL groups and single records with unique values, compound events that share one first record type - every named type in turn - with different syscalls, the repo's 47 recorded events, groups of hostile mutated text): CoalesceMessages(i), the same again (and four more times at the end of the history; some groups carry two SOCKADDR records of different families), ResolveIDs(e_j) through the global caches (names injected with HardcodeUsers/Groups for determinism), and a re-check of EVERY event returned so far after every operation. Deep copies of Data()/Tags()/ToMapStr() of every input message taken before its first use must equal the values afterwards; a repeated coalesce must give an equal event (JSON + sorted multiset of warning texts); every retained event must equal its own snapshot at every later step. After the histories, events whose ids carry names that never expire (root, injected names) are coalesced and resolved again after every few thousand unrelated ids went through the global caches: the result must not change. A second phase under the race detector coalesces and resolves different groups (incl. EXECVE records with 1..N arguments in ascending order) from 16 goroutines - the FIRST round on the cold process, before anything was coalesced sequentially, so lazily built global state is built by racing goroutines - and compares with a sequential reference computed afterwards (which must itself be stable); before that, the same-id storm: eight goroutines resolve the same not-yet-cached uid / gid of a real account on fresh caches at the same moment (150 / 6 000 rounds), each must get what a single look-up gives. distinct_nontrivial = distinct histories (by pool text and op list) that contain a repeated coalesce or a ResolveIDs while other events are retained.",
+		Rule: "cases = (first, on the cold process) for 21 file-related syscalls an event with four PATH records coalesced before and after an event of the same syscall with one or two PATH records: equal results; then a cross-process order probe: a fixed list of 39 events (one per candidate of every record type with several conditional normalisations - SELinux and AppArmor AVC records, alone and inside SYSCALL groups -, file syscalls with 4/1/2 PATH records, user-space records of seven types) is coalesced in forward order in this process and in reverse, rotated-by-one, rotated-by-half and forward order by four FRESH processes (`vcheck probe c15-order`): every event's outcome must be the same whatever the process saw before it; then seeded operation histories over a pool of 6-12 message groups (generated SYSCALL groups and single records with unique values, compound events that share one first record type - every named type in turn - with different syscalls, the repo's 47 recorded events, groups of hostile mutated text): CoalesceMessages(i), the same again (and four more times at the end of the history; some groups carry two SOCKADDR records of different families), ResolveIDs(e_j) through the global caches (names injected with HardcodeUsers/Groups for determinism), and a re-check of EVERY event returned so far after every operation. Deep copies of Data()/Tags()/ToMapStr() of every input message taken before its first use must equal the values afterwards; a repeated coalesce must give an equal event (JSON + sorted multiset of warning texts); every retained event must equal its own snapshot at every later step. After the histories, events whose ids carry names that never expire (root, injected names) are coalesced and resolved again after every few thousand unrelated ids went through the global caches: the result must not change. A second phase under the race detector coalesces and resolves different groups (incl. EXECVE records with 1..N arguments in ascending order) from 16 goroutines - the FIRST round on the cold process, before anything was coalesced sequentially, so lazily built global state is built by racing goroutines - and compares with a sequential reference computed afterwards (which must itself be stable); before that, the same-id storm: eight goroutines resolve the same not-yet-cached uid / gid of a real account on fresh caches at the same moment (150 / 6 000 rounds), each must get what a single look-up gives. Also: 17 record types x 4 variants resolved with ResolveIDsFromCaches through fresh private caches must not show ids / names that only the process-wide caches know. distinct_nontrivial = distinct histories (by pool text and op list) that contain a repeated coalesce or a ResolveIDs while other events are retained.",
 		Assumptions: []string{
 			"the ORDER of Event.Warnings is not asserted (they are produced while ranging over maps); warnings are compared as a sorted multiset",
 			"ResolveIDs may change the event it is given; all other retained events and all input messages must stay equal",
